@@ -338,10 +338,11 @@ _SIMPLE_ATOMS = list("abcxyz01 -_.") + ["é", "\\n", '\\"', "\\\\", "\\${", "$"]
 
 
 class Gen:
-    def __init__(self, seed: int, budget: int = 12, include_uri: bool = False):
+    def __init__(self, seed: int, budget: int = 12, include_uri: bool = False, empty_let: bool = True):
         self.r = random.Random(seed)
         self.budget = budget
         self.include_uri = include_uri
+        self.empty_let = empty_let
 
     # -- names
     def ident(self) -> str:
@@ -526,7 +527,10 @@ class Gen:
         if k == "lambda":
             return ("lambda", self.lambda_head(), self.expr())
         if k == "let":
-            return ("let", self.bindings(4), self.expr())
+            bs = self.bindings(4)
+            if not bs and not self.empty_let:
+                bs = (("bind", (("name", self.plain_name()),), self.leaf()),)
+            return ("let", bs, self.expr())
         if k == "letchain":
             # directly nested lets (scope layers): let … in let … in let … in body
             body = self.expr()
@@ -603,12 +607,12 @@ def _dedupe_bindings(items):
 SIZES = [3, 6, 12, 25, 40]
 
 
-def program(seed: int, include_uri: bool = False):
+def program(seed: int, include_uri: bool = False, empty_let: bool = True):
     """Deterministic program for a seed: returns (ast, text, broken)."""
     r = random.Random(seed ^ 0x5BD1E995)
     budget = r.choice(SIZES)
     broken = r.random() < 0.5
-    g = Gen(seed, budget, include_uri)
+    g = Gen(seed, budget, include_uri, empty_let)
     ast = g.expr()
     text = render(ast, broken)
     if not broken and any(len(ln) > 200 for ln in text.split("\n")):
